@@ -8,7 +8,7 @@ DSPATH = "tough::datastore::DatastorePath::path"
 
 
 def run(chk, prog):
-    chk.rules_live = ["R1", "R2", "R3", "R4"]
+    chk.rules_live = ["R1", "R2", "R3", "R4", "R5"]
     chk.explanation = (
         "Who-may-write rules over the resolved callees of datastore.rs: the only mutating file-system "
         "primitives reachable with a datastore path are remove_file (Datastore::remove) and, in "
@@ -124,6 +124,7 @@ def run(chk, prog):
     r2_create_sites(chk, prog)
     r3_read_errors(chk, prog)
     r4_unlink_scope(chk, prog)
+    r5_stored_is_reference_only(chk, prog)
 
 
 def r2_create_sites(chk, prog):
@@ -206,3 +207,33 @@ def r4_unlink_scope(chk, prog):
                         "deleted (in load_root, after an online-key rotation); a cycle cut short after the unlink "
                         "leaves no baseline for that document" % (name or "<non-constant name>", root_fn(b.path)), ctx.site(bb))
     chk.floor("R4", n, 1, "Datastore::remove call sites")
+
+
+def r5_stored_is_reference_only(chk, prog):
+    """a half-finished cycle leaves files of different generations side by side (each file is replaced
+    atomically, the set is not): that is harmless only because a stored document is never *used* as the
+    document of the current cycle — what a loader returns and stores is parsed from fetched bytes only"""
+    from .c03 import LOADERS, fetched_origin, stored_reads
+    n = 0
+    for fn, fname in LOADERS + [("tough::load_root", "root.json")]:
+        ctx = async_body(prog, fn)
+        if ctx is None:
+            chk.anchor_missing("R5", fn)
+            continue
+        chk.analysed_body(ctx.body)
+        docs = [o for o in fetched_origin(ctx) if o.kind == "call" and o.extra is not None and o.extra.is_call_to(*SER_PARSE)]
+        if fn == "tough::load_root":
+            docs = docs[1:] if len(docs) > 1 else []     # the shipped root comes from the caller, not from a fetch
+        for o in docs:
+            n += 1
+            deep = deep_origins(ctx, o.extra.args[0], 6)
+            from_store = [x for x in deep if is_call(x, BYTES)]
+            for hb, ht, _lvl in stored_reads(ctx):
+                if any(x.kind == "call" and x.key[0] == hb for x in deep):
+                    from_store.append(ht)
+            chk.require(not from_store, "R5", ctx.fn, "trusted-document-is-fetched:" + fname,
+                        "the document %s returns can be parsed from bytes read back from the datastore: files left "
+                        "behind by an interrupted cycle (timestamp of generation N+1 next to snapshot of generation "
+                        "N) would then make the client refuse the current repository" % fn.split("::")[-1],
+                        ctx.site(o.key[0]))
+    chk.floor("R5", n, 3, "returned documents of the loaders")
